@@ -535,6 +535,6 @@ def _switch(run, P):
 
 
 def check(run, P):
-    _check_main(run, P)
+    run.do(_check_main, run, P)
     from . import generic
     generic.lints(run, P, "C10")
